@@ -11,15 +11,26 @@ import (
 	"os"
 	"os/exec"
 	"path/filepath"
+	"runtime"
 	"sort"
 	"strings"
 	"sync"
 	"syscall"
 	"time"
+
+	"verif/internal/tick"
 )
 
 // VerifDir is where evidence, replays and the known-findings file live.
 var VerifDir = "/verif"
+
+func init() {
+	// scratch copies of the harness (tools/lane.sh: seeded changes evaluated next to the real
+	// /verif) keep their evidence and replays to themselves
+	if d := os.Getenv("VERIF_DIR"); d != "" {
+		VerifDir = d
+	}
+}
 
 // ---------------------------------------------------------------------------------------------
 // PRNG (splitmix64 – explicit, seed determined, no global state)
@@ -205,6 +216,9 @@ type Property struct {
 	RaceInThorough bool
 	// DeathIsViolation: an unexpected child death counts as a violation of this property.
 	DeathIsViolation bool
+	// OwnStallDetection: the check drives the library from several goroutines and decides itself
+	// whether a goroutine is blocked for ever (C19).
+	OwnStallDetection bool
 	// Exhaustive reports whether the run enumerated its (finite) space completely.
 	Exhaustive bool
 	// MemLimitMB applies RLIMIT_AS to the (non-race) worker; 0 = none.
@@ -245,6 +259,9 @@ func RunWorker(prop, tier string, seed int64, batch, batches int, race bool) int
 	}
 	rep := NewReporter(prop)
 	c := &Ctx{Prop: prop, Tier: tier, Seed: seed, Batch: batch, Batches: batches, Race: race, R: rep}
+	if !p.OwnStallDetection {
+		go stallDetector()
+	}
 	p.Run(c)
 	if ExtraNotes != nil {
 		for _, n := range ExtraNotes() {
@@ -271,6 +288,80 @@ func RunWorker(prop, tier string, seed int64, batch, batches int, race bool) int
 	}
 	out.Flush()
 	return 0
+}
+
+// stallDetector: the workers of every check but C19 drive the library from ONE goroutine. If that
+// goroutine sits in a lock acquisition below a frame of the library while no other goroutine is
+// inside the library, nothing can ever release the lock: a lock was taken and not given back (an
+// early return between Lock and Unlock). The decision is structural (who is where), taken from
+// six identical samples five seconds apart; the clock only paces the sampling. The worker prints
+// the dump and exits with status 3; the parent turns that into `blocked-forever` (a violation
+// where the property promises that calls return, inconclusive elsewhere) instead of waiting for
+// the batch watchdog.
+func stallDetector() {
+	same := 0
+	last := ""
+	var buf []byte
+	lastTick := ^uint64(0)
+	for {
+		time.Sleep(5 * time.Second)
+		// nothing is looked at (and nothing allocated) while calls keep starting and returning
+		if t := tick.Legs.Load(); t != lastTick {
+			lastTick, same, last = t, 0, ""
+			continue
+		}
+		tick.Dumps.Add(1)
+		if buf == nil {
+			buf = make([]byte, 4<<20)
+		}
+		n := runtime.Stack(buf, true)
+		blocked, where := blockedInLibrary(string(buf[:n]))
+		if !blocked {
+			same, last = 0, ""
+			continue
+		}
+		if where == last {
+			same++
+		} else {
+			same, last = 1, where
+		}
+		if same >= 6 {
+			fmt.Fprintf(os.Stdout, "\n@@STALL@@ %s\n", where)
+			fmt.Fprintf(os.Stderr, "%s\n", buf[:n])
+			os.Exit(3)
+		}
+	}
+}
+
+// blockedInLibrary: exactly one goroutine has library frames, and it waits for a sync lock.
+func blockedInLibrary(dump string) (bool, string) {
+	const lib = "github.com/ElrondNetwork/elrond-vm-common"
+	inLib := 0
+	where := ""
+	waiting := false
+	for _, g := range strings.Split(dump, "\n\n") {
+		if !strings.Contains(g, lib+"/") && !strings.Contains(g, lib+".") {
+			continue
+		}
+		inLib++
+		head := g
+		if i := strings.IndexByte(g, '\n'); i >= 0 {
+			head = g[:i]
+		}
+		if strings.Contains(head, "[sync.RWMutex.RLock") || strings.Contains(head, "[sync.RWMutex.Lock") || strings.Contains(head, "[sync.Mutex.Lock") || strings.Contains(head, "[semacquire") {
+			waiting = true
+			for _, l := range strings.Split(g, "\n") {
+				if strings.HasPrefix(l, lib) {
+					where = head[strings.IndexByte(head, '[')+1:] + " " + l
+					if i := strings.LastIndexByte(l, '('); i > 0 {
+						where = strings.TrimSuffix(strings.SplitN(head[strings.IndexByte(head, '[')+1:], "]", 2)[0], ":") + " in " + l[:i]
+					}
+					break
+				}
+			}
+		}
+	}
+	return inLib == 1 && waiting, where
 }
 
 // ---------------------------------------------------------------------------------------------
@@ -318,6 +409,7 @@ type batchOutcome struct {
 	res     *workerResult
 	died    bool
 	timeout bool
+	stalled string // the worker's stall detector fired: where the single library goroutine waits
 	stderr  string
 	batch   int
 	raceN   int
@@ -413,6 +505,15 @@ func RunCheck(prop, tier string, seed int64, self, selfRace string, onlyBatch in
 		} else if o.raceN > 0 {
 			viol = append(viol, Violation{Property: prop, Sig: "race:" + raceSig(o.raceTxt), What: fmt.Sprintf("%d data race report(s) from the race detector", o.raceN),
 				Seed: seed, Tier: tier, Batch: o.batch, Batches: batches, Witness: truncate(o.raceTxt, 6000)})
+		}
+		if o.stalled != "" {
+			if p.DeathIsViolation {
+				viol = append(viol, Violation{Property: prop, Sig: "blocked-forever:" + o.stalled, What: "a call never returned: the only goroutine inside the library waits for a lock that nobody holds any more (taken and not released on some path): " + o.stalled,
+					Seed: seed, Tier: tier, Batch: o.batch, Batches: batches, Witness: truncate(o.stderr, 6000)})
+			} else {
+				inconclusive = append(inconclusive, fmt.Sprintf("batch %d: a call never returned (lock taken and not released): %s", o.batch, o.stalled))
+			}
+			continue
 		}
 		if o.died || o.res == nil {
 			if p.DeathIsViolation {
@@ -619,6 +720,10 @@ func runChild(bin string, race bool, p *Property, prop, tier string, seed int64,
 		}
 	}
 	if o.timeout {
+		return o
+	}
+	if i := strings.LastIndex(string(ob), "@@STALL@@ "); i >= 0 {
+		o.stalled = strings.TrimSpace(strings.SplitN(string(ob[i+len("@@STALL@@ "):]), "\n", 2)[0])
 		return o
 	}
 	idx := strings.LastIndex(string(ob), "@@RESULT@@ ")
